@@ -242,6 +242,7 @@ def crashStep (d : CrashDrv) (line : String) : CrashDrv × String :=
   | "crash" :: rest =>
     let kv := kvArgsC rest
     if argNatC kv "same" 0 == 1 then (d, "same") else
+    if argNatC kv "racy" 0 == 1 then (d, "judged") else
     let s := argNatC kv "step" 0
     let a := argNatC kv "w" 0
     let b := argNatC kv "f" 0
